@@ -69,3 +69,12 @@ reg('C09', engine='pysym + crosshair',
          'CrossHair/z3. Operands typed as long long (unsigned-suffix modular arithmetic outside); literal length '
          'bounded (4 quick / 6 thorough).',
     technique='symbolic execution of the real Python function via proxy values + CrossHair, SMT (z3 Int/BV/strings)')
+
+reg('C35', engine='crosshair',
+    text='CrossHair executes the real flags_from_pkgconfig/merge_flags/call symbolically on symbolic token lists, '
+         'symbolic exit status and output bytes; each property must come back "Confirmed over all paths" within '
+         'the stated size bounds, counterexamples are replayed in plain CPython.',
+    note='Trusted: CrossHair 0.0.110 + z3, the reference partition in harness/C35.py; pkg-config output modelled '
+         'as its token list (str.split contract), subprocess.Popen stubbed. Bounds: 2-3 tokens of 3-4 characters, '
+         '2 packages.',
+    technique='symbolic execution of the real Python functions (CrossHair, z3 strings/sequences)')
